@@ -135,6 +135,18 @@ def jobs(tier, seed=0):
     A(lambda: make_arbiter(2, alphabet=_alpha(2, 1, 2)), 3000)
     A(lambda: make_decoder(MAPS[3][1][1], register=True, alphabet=_alpha(1, 3, 2)), 4000)
     A(lambda: make_decoder(MAPS[2][0][1], register=False, alphabet=_alpha(1, 2, 2)), 500)
+    # masters of different adr_width (narrow first / wide first): the shared bus must carry the widest address
+    WMAP = [DecSet([0, 1]), DecSet([2, 3])]
+    for aws in ([1, 2], [2, 1]):
+        for reg, to in ((False, None), (True, 2)):
+            A(lambda aws=aws, reg=reg, to=to: make_shared(
+                2, WMAP, register=reg, timeout=to, adr_widths=aws,
+                alphabet=small_alphabet(2, 2, full=True, adr_widths=aws),
+                name="Shared 2x2 adr_widths=%s%s%s a2" % (aws, " reg" if reg else "", " to=2" if to else "")), 20000)
+    A(lambda: make_xbar(2, WMAP, register=True, adr_widths=[1, 2], alphabet=small_alphabet(2, 2, adr_widths=[1, 2]),
+                        name="Crossbar 2x2 adr_widths=[1, 2] reg a1"), 8000)
+    A(lambda: make_shared(3, MAPS[3][0][1], adr_widths=[1, 2, 2], alphabet=small_alphabet(3, 3, adr_widths=[1, 2, 2]),
+                          name="Shared 3x3 adr_widths=[1, 2, 2] a1"), 9000)
     A(lambda: make_shared(2, OVERLAP, register=True, timeout=2, alphabet=_alpha(2, 2, 1), name="Shared 2x2 overlap reg to=2 a1"))
     A(lambda: make_xbar(2, OVERLAP, register=False, alphabet=_alpha(2, 2, 1), name="Crossbar 2x2 overlap a1"))
     A(lambda: make_shared(2, MAPS[2][0][1], timeout=0, alphabet=_alpha(2, 2, 1), name="Shared 2x2 cover to=0 a1"))
@@ -163,6 +175,13 @@ def jobs(tier, seed=0):
         name = "Crossbar %dx%d regions%s/32b [%s]" % (n, m, " reg" if reg else "", " ".join(d.word() for d in decs))
         B(lambda n=n, decs=decs, reg=reg, name=name:
           make_xbar(n, decs, register=reg, data_width=32, adr_width=30, name=name))
+    # 32-bit fabrics whose masters have different adr_width; one region lies above the narrow master's range
+    wreg = [DecRegion(0x1000, 0x1000), DecRegion(0x80000000, 0x10000), DecRegion(0x200000, 0x3000)]
+    for aws in ([20, 30], [30, 20]) if quick else ([20, 30], [30, 20], [30, 12, 24]):
+        B(lambda aws=aws: make_shared(len(aws), wreg, register=True, timeout=8, data_width=32, adr_widths=aws,
+                                      name="Shared %dx3 regions adr_widths=%s reg to=8/32b" % (len(aws), aws)))
+    B(lambda: make_xbar(2, wreg, register=False, data_width=32, adr_widths=[20, 30],
+                        name="Crossbar 2x3 regions adr_widths=[20, 30]/32b"))
     # whole-address-space region (decoder returns `lambda a: True`) and a 64-bit fabric
     B(lambda: make_shared(2, [DecRegion(0, 1 << 32)], data_width=32, adr_width=30, name="Shared 2x1 region=all/32b"))
     d64 = _region_map(rng, 2)
